@@ -356,7 +356,7 @@ func checkRaw(kvs []*storage.KeyValue, prefix string, m model) *violation {
 		case strings.HasPrefix(kv.Key, idxP):
 			rest := kv.Key[len(idxP):]
 			i := strings.IndexByte(rest, '/')
-			if i < 0 || entries[rest[:i]] == nil || i == len(rest)-1 {
+			if i < 0 || entries[rest[:i]] == nil { // an empty index value gives the key <index>/ (nothing after the slash)
 				return &violation{"raw/stray-key", fmt.Sprintf("key %q (value %q) is neither a data key nor an entry of one of the indexes %v", kv.Key, kv.Value, indexNames)}
 			}
 			entries[rest[:i]][string(kv.Value)]++
